@@ -111,7 +111,11 @@ EXPLANATION = (
     "C20.R14 (the received bitmap is the rendered one): a handler of gsm48_rr.c that stores a Mobile Allocation LV into a description and renders "
     "afterwards must render that description (or an object the octets were copied on to). C20.R15 (order at the consumer): in trx_if_cmd_setfh the "
     "values of pair k are traced to the element address they are read from, an affine function of one walker that is folded to `entry k`; a local "
-    "buffer in between must be a whole copy, a sort on it is decided by interpreting its comparator over the ARFCN pairs in TS 44.018 order.")
+    "buffer in between must be a whole copy, a sort on it is decided by interpreting its comparator over the ARFCN pairs in TS 44.018 order. "
+    "C20.R16 (band conversion behind the decoder): the loop of the renderer that stores back into the decoded list is walked for one "
+    "iteration on the statement CFG for every entry 0..1023 x gsm_refer_pcs() in {0, 1}; the entry handed on must be the channel "
+    "gsm_arfcn_refer_pcs() of sysinfo.c gives (ARFCN_PCS exactly on the range shared with DCS 1800 in a PCS cell), that range "
+    "cross-checked against arfcn2index() of gsm322.c.")
 ASSUMPTIONS = [
     "clang 14 parses the sliced function exactly as the layer23 build would (prelude models only declarations: stdint.h, EINVAL sign, struct gsm_sysinfo_freq {uint8_t mask;}, FREQ_TYPE_* values and array extents read from sysinfo.h, LOGP reduced to the evaluation of its value arguments)",
     "int is 32 bit: no counter in the function exceeds 2040, so machine arithmetic coincides with integer arithmetic",
@@ -130,6 +134,7 @@ ASSUMPTIONS = [
     "C20.R9 (re-run conditions): a condition the SI4 parser tests before any store, copy or call of a function of sysinfo.c sees the object as the caller left it; a local array of the caller that no other statement names holds what its one whole copy put there; a compare length within the copied octets compares only those; functions outside sysinfo.c (logging) called in between write neither side",
     "C20.R14 (received / rendered): a local structure of a handler is a different object from anything reached through its pointer parameters; a handler that stores a received Mobile Allocation and renders afterwards renders for that message (the lists of those render calls are the ones handed to L1, see C20.R13)",
     "C20.R15 (order): gsm_arfcn2freq10 and the arithmetic on its result are functions of their arguments; qsort sorts by its comparator and leaves an array that is strictly ordered by it as it is; the entries of a hopping list are distinct ARFCNs 0..1023 (flag bits of the band indicator are the same for all entries)",
+    "C20.R16 (band conversion): the cell allocation of a cell that refers to PCS 1900 consists of PCS channels in the range gsm_arfcn_refer_pcs() of sysinfo.c flags (the function the rest of layer23 uses to name a channel of the cell); gsm_refer_pcs() answers 0 or 1 and is called for the serving cell; ARFCN_PCS has the value of its #define in libosmocore's gsm_utils.h; an iteration that leaves the renderer by return is a refusal (the list is not handed on)",
     "C20.R7 (typed word model): integer widths are those of the parse target (char 8, short 16, int 32, long long and uint64_t 64 bit, long as uint64_t's typedef shows); signed integers are two's complement, conversion to a narrower signed type wraps, >> of a negative value is arithmetic and << of a signed value wraps into the sign bit (what gcc and clang define); a shift by a negative count or by a count >= the width of the promoted left operand is undefined (C11 6.5.7) and is reported, not evaluated",
 ]
 
@@ -6531,6 +6536,426 @@ def _only_fills(fm, q, nm):
     return False
 
 
+# ========================================== callers: band conversion of the decoded list
+#
+# The renderer post-processes the decoded list before it is handed to L1: the channels of the range PCS 1900 and
+# DCS 1800 share get the ARFCN_PCS flag when the cell refers to PCS.  The cell allocation of such a cell consists of
+# PCS channels, so an entry that misses the flag (or gets it outside the range) names a carrier outside the cell
+# allocation.  The conversion is *evaluated*: one iteration of the loop around the store is walked on the statement
+# CFG for every entry value 0..1023 and both answers of gsm_refer_pcs(), and compared with the repository's own
+# definitions of the shared range (gsm_arfcn_refer_pcs in sysinfo.c, arfcn2index in gsm322.c), evaluated the same way.
+
+F_322 = "src/host/layer23/src/mobile/gsm322.c"
+REFER_FN, REFER_ARFCN_FN, INDEX_FN = "gsm_refer_pcs", "gsm_arfcn_refer_pcs", "arfcn2index"
+_BIN = {"+": lambda x, y: x + y, "-": lambda x, y: x - y, "*": lambda x, y: x * y, "&": lambda x, y: x & y,
+        "|": lambda x, y: x | y, "^": lambda x, y: x ^ y, "<": lambda x, y: int(x < y), ">": lambda x, y: int(x > y),
+        "<=": lambda x, y: int(x <= y), ">=": lambda x, y: int(x >= y), "==": lambda x, y: int(x == y),
+        "!=": lambda x, y: int(x != y), "<<": lambda x, y: x << y if 0 <= y < 32 else None,
+        ">>": lambda x, y: x >> y if 0 <= y < 32 else None}
+
+
+class _Path(object):
+    __slots__ = ("env", "written", "forked", "tainted", "idx", "entry", "steps")
+
+    def __init__(self, env):
+        self.env, self.written, self.forked, self.tainted, self.idx, self.entry, self.steps = dict(env), set(), False, False, None, None, 0
+
+    def clone(self):
+        p = _Path(self.env)
+        p.written, p.forked, p.tainted, p.idx, p.entry, p.steps = set(self.written), self.forked, self.tainted, self.idx, self.entry, self.steps
+        return p
+
+
+class BandWalk(object):
+    """Concrete walk over the statement CFG of a sliced function.  Values are integers (in the types clang resolved)
+    or None = not determined; a condition that is not determined is followed both ways.  `consts` gives the value of
+    upper-case constants (header #defines), `oracle(name, args)` the result of a call (None = not determined),
+    `lst` names the pointer whose elements are the list entry under evaluation: all accesses of one walk must use one
+    index expression whose variables are not written on the way."""
+
+    def __init__(self, fm, consts, oracle, lst=None, outer=None):
+        self.fm, self.consts, self.oracle, self.lst, self.outer = fm, consts, oracle, lst, outer
+
+    def it(self, n):
+        return int_type(self.fm.tu, n.get("type", {}))
+
+    def var(self, P, nm):
+        fm = self.fm
+        if nm in P.env:
+            return P.env[nm]
+        if nm in fm.locals or nm in fm.params:
+            if self.outer is None or nm in fm.dups or nm in fm.addr:
+                return None
+            P.env[nm] = self.outer(nm)
+            return P.env[nm]
+        return self.consts.get(nm)      # a constant without one #define in the headers is not determined
+
+    def is_list(self, lv):
+        lv = strip(lv)
+        return self.lst is not None and kind(lv) in ("ArraySubscriptExpr", "UnaryOperator") and self.fm.store_base(lv) == self.lst
+
+    def list_access(self, P, lv):
+        lv = strip(lv)
+        if kind(lv) != "ArraySubscriptExpr" or self.fm.store_base(kids(lv)[0]) != self.lst or kind(strip(kids(lv)[0])) != "DeclRefExpr":
+            raise CannotEval("access `%s` to the list is not an element access" % ctext(lv)[:40])
+        ix = kids(lv)[1]
+        names = {x.get("referencedDecl", {}).get("name") for x in walk(ix) if kind(x) == "DeclRefExpr"}
+        if any(kind(x) in ("CallExpr", "ArraySubscriptExpr", "MemberExpr") or (kind(x) == "UnaryOperator" and x.get("opcode") in ("++", "--", "*"))
+               for x in walk(ix)) or names & P.written or (P.idx is not None and P.idx != ctext(ix)):
+            raise CannotEval("the list is accessed at `%s` and at another index in one iteration" % ctext(ix)[:30])
+        P.idx = ctext(ix)
+
+    def val(self, P, e):
+        k, ks = kind(e), kids(e)
+        if k in ("ParenExpr", "ConstantExpr"):
+            return self.val(P, ks[0])
+        if k in ("ImplicitCastExpr", "CStyleCastExpr"):
+            ck = e.get("castKind")
+            if ck == "LValueToRValue" and self.is_list(ks[0]):
+                self.list_access(P, ks[0])
+                return P.entry
+            v = self.val(P, ks[0])
+            if ck in ("LValueToRValue", "NoOp"):
+                return v
+            if ck == "IntegralCast":
+                t = self.it(e)
+                return _wrap(v, t) if v is not None and t is not None else None
+            if ck == "IntegralToBoolean":
+                return None if v is None else int(v != 0)
+            if ck == "ToVoid":
+                return 0
+            return None
+        if k == "IntegerLiteral":
+            return int(e.get("value", "0"), 0)
+        if k == "CharacterLiteral":
+            return int(e.get("value", 0))
+        if k == "UnaryExprOrTypeTraitExpr":
+            return self.fm.tu.fold(e)
+        if k == "DeclRefExpr":
+            rd = e.get("referencedDecl", {})
+            if rd.get("kind") == "EnumConstantDecl":
+                return self.fm.tu.fold(e)
+            if rd.get("kind") in ("VarDecl", "ParmVarDecl"):
+                return self.var(P, rd.get("name"))
+            return None
+        if k == "UnaryOperator":
+            op = e.get("opcode")
+            if op in ("++", "--"):
+                return self.assign(P, ks[0], lambda old: None if old is None else old + (1 if op == "++" else -1), bool(e.get("isPostfix")))
+            if op in ("&", "*"):
+                if op == "*" and self.is_list(e):
+                    self.list_access(P, e)
+                return None
+            v = self.val(P, ks[0])
+            if v is None:
+                return None
+            if op == "!":
+                return int(not v)
+            t = self.it(e)
+            return _wrap({"-": -v, "~": ~v, "+": v}[op], t) if op in ("-", "~", "+") and t is not None else None
+        if k == "ConditionalOperator":
+            c = self.val(P, ks[0])
+            if c is None:
+                a, b = self.val(P, ks[1]), self.val(P, ks[2])
+                return a if a == b else None
+            return self.val(P, ks[1] if c else ks[2])
+        if k == "BinaryOperator":
+            op = e.get("opcode")
+            if op == "=":
+                v = self.val(P, ks[1])
+                return self.assign(P, ks[0], lambda old: v, False, plain=True)
+            if op == ",":
+                self.val(P, ks[0])
+                return self.val(P, ks[1])
+            if op in ("&&", "||"):
+                a = self.val(P, ks[0])
+                if a is not None and bool(a) == (op == "||"):
+                    return int(op == "||")
+                b = self.val(P, ks[1])          # no side effects are lost: an undetermined left side makes the result undetermined or b's
+                if b is not None and bool(b) == (op == "||"):
+                    return int(op == "||")
+                return None if a is None or b is None else int(op == "&&")
+            a, b = self.val(P, ks[0]), self.val(P, ks[1])
+            if op == "&" and 0 in (a, b):
+                return 0
+            if a is None or b is None or op not in _BIN:
+                return None
+            r, t = _BIN[op](a, b), self.it(e)
+            return None if r is None or t is None else _wrap(r, t)
+        if k == "CompoundAssignOperator":
+            op = e.get("opcode", "")[:-1]
+            b = self.val(P, ks[1])
+            ct = int_type(self.fm.tu, e.get("computeResultType", {}))
+            return self.assign(P, ks[0], lambda old: None if old is None or b is None or op not in _BIN or _BIN[op](old, b) is None
+                               else _wrap(_BIN[op](old, b), ct or (64, True)), False)
+        if k == "CallExpr":
+            args = [self.val(P, a) for a in ks[1:]]
+            return self.oracle(_callee(e), args)
+        if k in ("ArraySubscriptExpr", "MemberExpr"):
+            for x in ks:
+                self.val(P, x)
+            return None
+        if k in ("StringLiteral", "ImplicitValueInitExpr"):
+            return None
+        raise CannotEval("expression `%s` (%s)" % (ctext(e)[:40], k))
+
+    def assign(self, P, lv, f, postfix, plain=False):
+        l = strip(lv)
+        if kind(l) == "DeclRefExpr" and l.get("referencedDecl", {}).get("kind") in ("VarDecl", "ParmVarDecl"):
+            nm = l["referencedDecl"].get("name")
+            old = None if plain else self.var(P, nm)
+            new = f(old)
+            t = self.it(l)
+            new = _wrap(new, t) if new is not None and t is not None else None
+            P.env[nm] = new
+            P.written.add(nm)
+            return old if postfix else new
+        if self.is_list(l):
+            self.list_access(P, l)
+            new = f(None if plain else P.entry)
+            t = self.it(l)
+            P.entry = _wrap(new, t) if new is not None and t is not None else None
+            P.tainted = P.forked
+            return P.entry
+        for x in kids(l):
+            self.val(P, x)
+        f(None)
+        return None
+
+    def execute(self, P, st):
+        k = kind(st)
+        if k == "DeclStmt":
+            for d in kids(st):
+                if kind(d) == "VarDecl":
+                    ks = [c for c in kids(d) if kind(c) and not kind(c).endswith("Attr")]
+                    v = self.val(P, ks[-1]) if ks else None
+                    t = int_type(self.fm.tu, d.get("type", {}))
+                    P.env[d.get("name")] = _wrap(v, t) if v is not None and t is not None else None
+                    P.written.add(d.get("name"))
+        elif k == "ReturnStmt":
+            raise _Ret(self.val(P, kids(st)[0]) if kids(st) else None)
+        elif k in ("BreakStmt", "ContinueStmt", "GotoStmt"):
+            pass
+        else:
+            self.val(P, st)
+
+    def walk(self, start, P, stop):
+        """[(how, path)]: how = ('stop',) at a node of `stop`, ('ret', value) at a return, ('end',) at the function's end"""
+        out, todo = [], [(start, P)]
+        while todo:
+            n, P = todo.pop()
+            while True:
+                P.steps += 1
+                if P.steps > 4000 or len(todo) + len(out) > 64:
+                    raise CannotEval("walk does not end")
+                if n in stop:
+                    out.append((("stop",), P))
+                    break
+                if n.kind == "exit":
+                    out.append((("end",), P))
+                    break
+                if n.kind == "cond":
+                    c = self.val(P, n.cond) if n.cond is not None else 1
+                    nx = [(s, l) for (s, l) in n.succ if c is None or bool(l) == bool(c)]
+                    if c is None:
+                        P.forked = True
+                    if not nx:
+                        raise CannotEval("condition `%s` has no successor for its value" % ctext(n.cond)[:40])
+                    for (s, _) in nx[1:]:
+                        todo.append((s, P.clone()))
+                    n = nx[0][0]
+                    continue
+                if n.kind == "switch" or n.kind == "raise":
+                    raise CannotEval("switch on the way")
+                if n.kind == "stmt":
+                    try:
+                        self.execute(P, n.ast)
+                    except _Ret as r:
+                        out.append((("ret", r.v), P))
+                        break
+                if len(n.succ) != 1:
+                    raise CannotEval("statement with %d successors" % len(n.succ))
+                n = n.succ[0][0]
+        return out
+
+
+def band_consts(H, fm):
+    """values of the upper-case constants a sliced function names (one #define in the headers each)"""
+    out = {}
+    for x in walk(fm.f):
+        if kind(x) == "DeclRefExpr" and x.get("referencedDecl", {}).get("kind") == "VarDecl":
+            nm = x["referencedDecl"].get("name")
+            if nm not in fm.locals and nm not in out and re.fullmatch(r"[A-Z][A-Z0-9_]*", nm or ""):
+                v = H.define(nm)
+                if v is not None:
+                    out[nm] = v
+    return out
+
+
+def whole_function(fm, consts, oracle, args):
+    """the value a sliced function returns for the given arguments (None = not determined on some path)"""
+    bw = BandWalk(fm, consts, oracle)
+    P = _Path({p: None for p in fm.params})
+    for p, v in args.items():
+        P.env[p] = _wrap(v, int_type(fm.tu, fm.ptype.get(p, "")))
+    res = bw.walk(fm.g.entry.succ[0][0], P, ())
+    vals = {how[1] if how[0] == "ret" else None for (how, _) in res}
+    return vals.pop() if len(vals) == 1 else None
+
+
+def fmt_ranges(s):
+    s, out = sorted(s), []
+    for a in s:
+        if out and out[-1][1] == a - 1:
+            out[-1][1] = a
+        else:
+            out.append([a, a])
+    return ", ".join("%d..%d" % (a, b) if a != b else str(a) for a, b in out) or "none"
+
+
+def pcs_reference(L, H, hdr):
+    """(flag, {refers to PCS: {arfcn: channel the cell means}}) from the repository's definitions of the shared range"""
+    R = "C20.R16"
+    flag = H.define("ARFCN_PCS")
+    if not flag or flag & 1023:
+        raise AnalysisError("ARFCN_PCS has no single #define above the 10 bit ARFCN in the headers")
+    fr = slice_of(L, H, F_SYS, REFER_ARFCN_FN, hdr)
+    apar = [p for p in fr.params if int_type(fr.tu, fr.ptype.get(p, "")) == (16, False)]
+    if len(apar) != 2:
+        raise AnalysisError("%s(): the cell's and the channel's ARFCN parameter cannot be told apart" % REFER_ARFCN_FN)
+    cr = band_consts(H, fr)
+    ref = {}
+    for r in (0, 1):
+        ref[r] = {}
+        for a in range(1024):
+            v = whole_function(fr, cr, lambda nm, args: r if nm == REFER_FN else None, {apar[1]: a})
+            if v is None or v not in (a, a | flag) or (not r and v != a):
+                raise AnalysisError("%s(): result for ARFCN %d in a cell that %s PCS is %s" % (
+                    REFER_ARFCN_FN, a, "refers to" if r else "does not refer to", "not determined" if v is None else v))
+            ref[r][a] = v
+    shared = {a for a in ref[1] if ref[1][a] != a}
+    # second definition: the index of the supported-frequency map tells the flag apart exactly in the shared range
+    fi = slice_of(L, H, F_322, INDEX_FN, hdr)
+    ci = band_consts(H, fi)
+    if len(fi.params) != 1:
+        raise AnalysisError("%s() has %d parameters" % (INDEX_FN, len(fi.params)))
+    shared2 = set()
+    for a in range(1024):
+        u, f = (whole_function(fi, ci, lambda nm, args: None, {fi.params[0]: x}) for x in (a, a | flag))
+        if u is None or f is None:
+            raise AnalysisError("%s(): index of ARFCN %d is not determined" % (INDEX_FN, a))
+        if u != f:
+            shared2.add(a)
+    if shared != shared2:
+        raise AnalysisError("the repository's definitions of the range PCS 1900 shares with DCS 1800 disagree: %s() flags %s, %s() tells "
+                            "the flag apart for %s" % (REFER_ARFCN_FN, fmt_ranges(shared), INDEX_FN, fmt_ranges(shared2)))
+    L.require(R, F_SYS, REFER_ARFCN_FN, "ARFCNs that name a PCS 1900 channel in a cell that refers to PCS: one contiguous range, the same "
+              "in %s() and %s()" % (REFER_ARFCN_FN, INDEX_FN), True, bool(shared) and len(shared) == max(shared) - min(shared) + 1)
+    return flag, ref, shared
+
+
+def r16_band(L, tier):
+    """C20.R16 -- clause "never a channel outside the cell allocation" (mechanism: callers feeding the hopping list to L1):
+    what the renderer stores back into the decoded list still names the cell-allocation channel.  In a cell that refers to
+    PCS 1900 the channels of the range shared with DCS 1800 are PCS channels (ARFCN_PCS set), everywhere else the entry is
+    the plain ARFCN.  For every function of gsm48_rr.c that hands its list parameter to the decoder, each loop that stores
+    into that list behind the decoder call is walked for one iteration on the statement CFG, for every entry value
+    0..1023 x gsm_refer_pcs() in {0, 1} (locals defined in front of the loop by their unique reaching definition; calls of
+    gsm_arfcn_refer_pcs by that function's own fold).  The entry after the iteration must equal the reference
+    gsm_arfcn_refer_pcs(.., entry) of sysinfo.c, which must agree with arfcn2index() of gsm322.c on the shared range.
+    Iterations that leave the function by `return` (refusals) are not compared; a wrong value on a path that passed an
+    undetermined condition in front of the store is not classified."""
+    R = "C20.R16"
+    with open(L.unit(F_HDR), "r", encoding="utf-8", errors="surrogateescape") as f:
+        hdr = blank_strings(strip_comments(f.read()))
+    H = HeaderIndex(L)
+    cf = CFile(L, F_RR)
+    try:
+        flag, ref, shared = pcs_reference(L, H, hdr)
+        nloops = 0
+        for fname in sorted({fi[0] for (fi, pos, args) in cf.calls(FN)}):
+            nloops += r16_function(L, R, H, hdr, fname, flag, ref, shared)
+    except CannotEval as e:
+        raise AnalysisError("[%s] band conversion of the decoded list: %s" % (R, e))
+    L.floor(R, "loops that store into the decoded list behind the decoder call (band conversion)", nloops, 1)
+
+
+def r16_function(L, R, H, hdr, fname, flag, ref, shared):
+    fm = slice_of(L, H, F_RR, fname, hdr)
+    g = fm.g
+    dec = [(n, c) for (n, c) in fm.calls if _callee(c) == FN]
+    lists = {_ref_name(kids(c)[4]) if len(kids(c)) > 4 else None for (n, c) in dec}     # the decoder's output list (see renderers_of)
+    if len(lists) != 1 or None in lists or not dec:
+        raise AnalysisError("%s(): the list handed to %s() is not one variable" % (fname, FN))
+    lst = lists.pop()
+    after = set()
+    for (n, c) in dec:
+        after |= set(fm.reach_succ(n))
+    loops = {}
+    for w in fm.memwrites:
+        if fm.store_base(kids(w.ast)[0]) == lst and w.node.id in after:
+            lp = g.loop_of(w.node)
+            if lp is None or kind(lp) != "ForStmt" and kind(lp) != "WhileStmt":
+                raise AnalysisError("%s(): store `%s` into the decoded list is not inside a for / while loop" % (fname, ctext(w.ast)[:40]))
+            loops.setdefault(id(lp), (lp, []))[1].append(w)
+    consts = band_consts(H, fm)
+    fr = slice_of(L, H, F_SYS, REFER_ARFCN_FN, hdr)
+    cr = band_consts(H, fr)
+    apar = [p for p in fr.params if int_type(fr.tu, fr.ptype.get(p, "")) == (16, False)]
+    for (lp, ws) in loops.values():
+        head = g.by_ast.get(id(lp))
+        body = [s for (s, l) in head.succ if l is True] if head is not None and head.kind == "cond" else []
+        if len(body) != 1:
+            raise AnalysisError("%s(): loop around `%s` has no body entry" % (fname, ctext(ws[0].ast)[:40]))
+        inside = {x.id for x in g.nodes if x.id in fm.reach_succ(body[0]) and head.id in fm.reach_succ(x)} | {body[0].id}
+        bad = {}
+        for r in (0, 1):
+            def oracle(nm, args, r=r):
+                if nm == REFER_FN:
+                    return r
+                if nm == REFER_ARFCN_FN and len(args) == len(fr.params) and args[-1] is not None:
+                    return whole_function(fr, cr, lambda n2, a2: r if n2 == REFER_FN else None, {apar[1]: args[fr.params.index(apar[1])]})
+                return None
+
+            def outer(nm, oracle=oracle):
+                defs = [d for d in fm.reaching_defs(nm, head) if d == "undef" or d.node.id not in inside]
+                if len(defs) != 1 or defs[0] == "undef" or defs[0].how not in ("init", "assign") or defs[0].val is None:
+                    return None
+                return BandWalk(fm, consts, oracle).val(_Path({}), defs[0].val)
+            bw = BandWalk(fm, consts, oracle, lst=lst, outer=outer)
+            pre = _Path({})
+            for a in range(1024):
+                P = _Path(pre.env)
+                P.entry = a
+                for (how, Q) in bw.walk(body[0], P, (head,)):
+                    if how[0] == "ret" or Q.entry == ref[r][a]:
+                        continue
+                    if Q.tainted or Q.entry is None:
+                        raise CannotEval("%s(): entry %d after the iteration is %s (behind a condition that is not determined)" % (
+                            fname, a, "not determined" if Q.entry is None else Q.entry))
+                    bad.setdefault(r, {})[a] = Q.entry
+                for nm, v in P.env.items():         # definitions in front of the loop: evaluated once
+                    if nm not in P.written and nm not in pre.env:
+                        pre.env[nm] = v
+        want = found = "ARFCN_PCS on exactly ARFCN %s of a PCS cell" % fmt_ranges(shared)
+        if bad:
+            r = max(bad)
+            a = max(bad[r]) if r else min(bad[r])
+            found = "in a cell that %s PCS: ARFCN %s left as / turned into %s (e.g. entry %d becomes %d = %s, the cell's channel is %d = %s)" % (
+                "refers to" if r else "does not refer to", fmt_ranges(bad[r]), fmt_ranges({v & 1023 for v in bad[r].values()}) +
+                (" without ARFCN_PCS" if not any(v & flag for v in bad[r].values()) else " with ARFCN_PCS"),
+                a, bad[r][a], fmt_arfcn(bad[r][a], flag), ref[r][a], fmt_arfcn(ref[r][a], flag))
+        L.ob(R, F_RR, fname, "band conversion of the decoded hopping list (`%s`): for every entry 0..1023 and a cell that does / does not "
+             "refer to PCS 1900 the entry handed on names the cell-allocation channel (reference: %s() of sysinfo.c, %s() of gsm322.c)" % (
+                 lst, REFER_ARFCN_FN, INDEX_FN),
+             want, found, not bad, fm.line(ws[0].ast))
+    return len(loops)
+
+
+def fmt_arfcn(v, flag):
+    return "%d%s" % (v & 1023, " PCS" if v & flag else "")
+
+
 # ================================================================= call sites
 
 def r2_callers(L, K, tier):
@@ -7538,3 +7963,4 @@ def run(L, tier):
     L.stage(r12_result, L, sl, tier)    # callers: tests of the return value fit the results folded by C20.R8
     L.stage(r13_pairing, L, tier)       # callers: the list handed to L1 was rendered from the description handed along
     L.stage(r14_received, L, tier)      # callers: the bitmap received for a description is the one rendered from it
+    L.stage(r16_band, L, tier)          # callers: the band conversion behind the decoder keeps every entry a cell-allocation channel
